@@ -1288,6 +1288,14 @@ func c10Teardown(c *core.Ctx) {
 				break
 			}
 		}
+		if kind == "rw" && strings.HasPrefix(site, "(*stack).config") && strings.HasPrefix(cls, "cfg.") {
+			// (*stack).config reads the slice header and the two words of slot 0 and nothing else; it never looks INSIDE a
+			// configuration record. If the address it read lies in a range registered as some stack's configuration
+			// record, that range is stale (the allocator has placed a new backing array where a record used to be):
+			// what was read is slot 0 of a backing array, i.e. "elsewhere".
+			cls = "elsewhere"
+			c.Count("race.reclassified-stale-configuration-range")
+		}
 		key := fmt.Sprintf("race:%s:%s", cls, kind)
 		if kind == "rw" {
 			key += ":" + site
